@@ -22,6 +22,8 @@ asyncio runs a task without interruption between two awaits, so the atomic steps
                  blocks in its own round trip or is refused;
   `disconnect` : the engine's connection drops: its engine data is deleted; a round trip that was in flight can no
                  longer succeed (it ends with an error, possibly after the engine is back);
+  `engineMethod`: the engine sends the method it holds (`handle_MethodMsg`, part of its catch-up after a reconnect):
+                 the aggregator takes over the lines and keeps its own version;
   `register`   : the engine registers again: fresh engine data.  `resetOnRegister = true`: its method is
                  `Method.empty()` at version 0 — the code before fixes/C31-version-survives-reregistration.diff;
                  `resetOnRegister = false`: the version continues one above the last version the engine had.
@@ -56,6 +58,7 @@ structure Cfg where
   locked : Bool := true
   resetOnRegister : Bool := false
   precheck : Bool := false     -- an additional version check in front of the lock (fast refusal of stale saves)
+  methodMsgSetsVersion : Bool := false   -- `handle_MethodMsg` takes the engine's (stale) version too, not only its lines
 deriving Repr, DecidableEq
 
 structure State where
@@ -77,6 +80,7 @@ inductive Ev where
   | reply (id : Nat) (ok : Bool)
   | disconnect
   | register
+  | engineMethod (v content : Nat)   -- EM.MethodMsg: the method the engine holds (sent when it catches up after a reconnect)
 deriving Repr, DecidableEq
 
 def init (v0 : Nat) : State := { version := v0 }
@@ -124,6 +128,12 @@ def step (c : Cfg) (s : State) : Ev → Option State
     if s.registered then none
     else some { s with registered := true, reconnects := s.reconnects + 1, owner := none,
                        version := if c.resetOnRegister then 0 else s.version + 1 }
+
+  | .engineMethod v content =>
+    -- `handle_MethodMsg`: the lines of the engine's method replace the aggregator's; its version — the engine never
+    -- counts re-registrations, so it is behind — is NOT taken over (`methodMsgSetsVersion = false`, the code as it is)
+    if !s.registered then none
+    else some { s with content := some content, version := if c.methodMsgSetsVersion then v else s.version }
 
 /-- Run a schedule; `none` if some event of it is not enabled where it occurs. -/
 def run (c : Cfg) (s : State) (evs : List Ev) : Option State := evs.foldlM (step c) s
